@@ -297,7 +297,7 @@ func drawRequest(w *simrt.Tape) (*request, string) {
 		i, j := w.Choose(n), w.Choose(n)
 		req.Parameters[i], req.Parameters[j] = req.Parameters[j], req.Parameters[i]
 	}
-	T := 1 + w.Choose(12)
+	T := sizeDraw(w, 12, 70)
 	ins := domains.GenInputs(w, name, col, maxDim, T)
 	lenKind := w.Choose(10) // 0..6 equal, 7 one shorter, 8 one longer, 9 some missing
 	for k, in := range desc.Inputs {
